@@ -7,6 +7,9 @@ from xtime_common import SleepSpec, TickerSpec
 PROP_FILES = ["C20"]
 
 
+SPECS = {"sleep": (SleepSpec(), "harness_xtime", "runner-xtime"), "ticker": (TickerSpec(), "harness_xtime", "runner-xtime")}
+
+
 def run(ctx):
     proofs_ok = ctx.check_proofs(PROP_FILES, extra_targets=["theories/Conc/XTime.vo"])
     ok, out, exe = vlib.build_runner(module="harness_xtime", exe_name="runner-xtime")
